@@ -106,6 +106,20 @@ pub fn run(exe: &Path, args: &[String], cwd: Option<&Path>, stdin: &[u8], chunks
     run_inner(exe, args, None, cwd, stdin, chunks, timeout)
 }
 
+thread_local! {
+    static HOLD_OPEN: std::cell::Cell<bool> = std::cell::Cell::new(false);
+}
+
+/// Like `run`, but standard input stays open after the data has been written (a producer that has not
+/// finished yet): it is closed only when the child has exited or the time limit has passed.  Only for
+/// programs that, by the model, end without ever reaching the end of their input.
+pub fn run_stdin_held_open(exe: &Path, args: &[String], stdin: &[u8], chunks: &[usize], timeout: Duration) -> Result<RealOut, String> {
+    HOLD_OPEN.with(|h| h.set(true));
+    let r = run_inner(exe, args, None, None, stdin, chunks, timeout);
+    HOLD_OPEN.with(|h| h.set(false));
+    r
+}
+
 /// Like `run`, with one extra trailing argument given as raw OS bytes (file names that are not UTF-8).
 pub fn run_os(exe: &Path, args: &[String], last: Option<&std::ffi::OsStr>, stdin: &[u8], chunks: &[usize], timeout: Duration) -> Result<RealOut, String> {
     run_inner(exe, args, last, None, stdin, chunks, timeout)
@@ -136,6 +150,9 @@ fn run_inner(exe: &Path, args: &[String], last: Option<&std::ffi::OsStr>, cwd: O
     let mut se = child.stderr.take().unwrap();
     let data = stdin.to_vec();
     let ch = chunks.to_vec();
+    let hold = HOLD_OPEN.with(|h| h.get());
+    let child_done = std::sync::Arc::new(std::sync::atomic::AtomicBool::new(false));
+    let child_done2 = child_done.clone();
     let wt = std::thread::spawn(move || {
         let mut pos = 0usize;
         let mut k = 0usize;
@@ -147,6 +164,12 @@ fn run_inner(exe: &Path, args: &[String], last: Option<&std::ffi::OsStr>, cwd: O
             }
             let _ = si.flush();
             pos += n;
+        }
+        if hold {
+            // keep the write end open until the child is gone
+            while !child_done2.load(std::sync::atomic::Ordering::SeqCst) {
+                std::thread::sleep(Duration::from_millis(2));
+            }
         }
         drop(si);
     });
@@ -167,6 +190,7 @@ fn run_inner(exe: &Path, args: &[String], last: Option<&std::ffi::OsStr>, cwd: O
             Err(_) => break None,
         }
     };
+    child_done.store(true, std::sync::atomic::Ordering::SeqCst);
     let _ = wt.join();
     let stdout = ot.join().unwrap_or_default();
     let stderr = et.join().unwrap_or_default();
